@@ -183,6 +183,9 @@ func (w *RawWorld) Idle() bool {
 	return true
 }
 
+// Ctx returns the world context.
+func (w *RawWorld) Ctx() context.Context { return w.ctx }
+
 // Teardown ends everything.
 func (w *RawWorld) Teardown() {
 	w.cancel()
